@@ -22,6 +22,8 @@ CFG = {"converter": "default"}
 NS = {'p': 'urn:u1'}
 
 _XSD = """<xs:schema xmlns:xs="http://www.w3.org/2001/XMLSchema" targetNamespace="urn:u1" xmlns="urn:u1" elementFormDefault="qualified">
+ <xs:simpleType name="U"><xs:union memberTypes="xs:integer xs:NCName"/></xs:simpleType>
+ <xs:simpleType name="UR1"><xs:restriction base="U"><xs:pattern value="[A-Z]+"/></xs:restriction></xs:simpleType>
  <xs:element name="r"><xs:complexType><xs:sequence>
    <xs:element name="a" type="xs:int"/>
    <xs:element name="b" minOccurs="0" maxOccurs="unbounded"><xs:complexType><xs:simpleContent><xs:extension base="xs:string">
@@ -35,6 +37,8 @@ _XSD = """<xs:schema xmlns:xs="http://www.w3.org/2001/XMLSchema" targetNamespace
         <xs:attribute name="u" type="xs:string"/></xs:extension></xs:simpleContent></xs:complexType></xs:element>
    <xs:element name="lr" minOccurs="0"><xs:simpleType><xs:restriction><xs:simpleType><xs:list itemType="xs:int"/></xs:simpleType>
         <xs:length value="2"/></xs:restriction></xs:simpleType></xs:element>
+   <xs:element name="u1" type="UR1" minOccurs="0"/><xs:element name="u2" type="U" minOccurs="0"/>
+   <xs:element name="mx" minOccurs="0"><xs:complexType mixed="true"><xs:sequence><xs:element name="k2" type="xs:string" minOccurs="0"/></xs:sequence></xs:complexType></xs:element>
  </xs:sequence><xs:attribute name="id" type="xs:int" use="required"/>
  <xs:attribute name="sz"><xs:simpleType><xs:list itemType="xs:int"/></xs:simpleType></xs:attribute></xs:complexType></xs:element></xs:schema>"""
 SCHEMA = xmlschema.XMLSchema10(_XSD)
@@ -49,7 +53,9 @@ L_VARIANTS = [None, "1 2 3", "7"]
 # (occurrences of the repeatable list element m, the simple-content-with-attribute element n as (text, attribute u))
 X_VARIANTS = [([], None), (["4 5 6"], ("0", "px")), (["1", "2 3"], ("5", None)), ([], ("0", None))]
 # (list-typed attribute sz on the root, the length-restricted list element lr)
-Y_VARIANTS = [(None, None), ("1 2", None), (None, "3 4"), ("5", "6 7")]
+# plus a pattern-restricted union value followed by a plain union value, and a mixed-content element (text kept only by the
+# converters that declare themselves lossless: JsonML, DataElement)
+Y_VARIANTS = [(None, None, None, None), ("1 2", None, ("ABC", "abc"), 'lead<p:k2>v</p:k2>tail'), (None, "3 4", None, 'only text'), ("5", "6 7", ("XY", "12"), None)]
 
 
 def configure(cfg):
@@ -75,7 +81,7 @@ def _instance(kw):
     bs = B_VARIANTS[pick(_a(kw, "b"), len(B_VARIANTS))]
     c = C_VARIANTS[pick(_a(kw, "c"), len(C_VARIANTS))]
     lv = L_VARIANTS[pick(_a(kw, "l"), len(L_VARIANTS))]
-    sz, lr = Y_VARIANTS[pick(_a(kw, "y"), len(Y_VARIANTS))]
+    sz, lr, uu, mx = Y_VARIANTS[pick(_a(kw, "y"), len(Y_VARIANTS))]
     xml = '<p:r xmlns:p="urn:u1" id="7"%s><p:a>%s</p:a>' % ('' if sz is None else ' sz="%s"' % sz, a)
     for text, k in bs:
         xml += '<p:b%s>%s</p:b>' % ('' if k is None else ' k="%s"' % k, text)
@@ -91,14 +97,24 @@ def _instance(kw):
         xml += '<p:n%s>%s</p:n>' % ('' if nv[1] is None else ' u="%s"' % nv[1], nv[0])
     if lr is not None:
         xml += '<p:lr>%s</p:lr>' % lr
+    if uu is not None:
+        xml += '<p:u1>%s</p:u1><p:u2>%s</p:u2>' % uu
+    if mx is not None:
+        xml += '<p:mx>%s</p:mx>' % mx
     xml += '</p:r>'
     if CFG.get("dns"):          # the same document spelled with a default namespace declaration
         xml = xml.replace('xmlns:p=', 'xmlns=').replace('<p:', '<').replace('</p:', '</')
     return xml
 
 
-def _shape(elem):
-    return (elem.tag, sorted(elem.attrib), [_shape(c) for c in elem])
+def _shape(elem, text=False, inside=False):
+    # lossless converters: the character data of the mixed-content element mx is part of the round trip (simple-typed
+    # values are compared in the value space by the decode comparison: '01' legitimately comes back as '1')
+    mixed = elem.tag.endswith('}mx')
+    if text and (mixed or inside):
+        return (elem.tag, sorted(elem.attrib), (elem.text or '').strip(), (elem.tail or '').strip() if inside else '',
+                [_shape(c, True, mixed) for c in elem])
+    return (elem.tag, sorted(elem.attrib), [_shape(c, text) for c in elem])
 
 
 def h_roundtrip(**kw) -> bool:
@@ -116,7 +132,8 @@ def h_roundtrip(**kw) -> bool:
         return False
     if not SCHEMA.is_valid(elem):
         return False
-    if _shape(elem) != _shape(ET.fromstring(xml)):
+    keeps_text = CFG["converter"] in ("jsonml", "dataelement")
+    if _shape(elem, keeps_text) != _shape(ET.fromstring(xml), keeps_text):
         return False
     # typed values: both documents decode to the same data (default converter as the common yardstick)
     if SCHEMA.decode(elem) != SCHEMA.decode(ET.fromstring(xml)):
